@@ -9,6 +9,7 @@ import (
 	"context"
 	"log/slog"
 	"sync"
+	"time"
 
 	"github.com/emirpasic/gods/v2/sets/linkedhashset"
 
@@ -51,3 +52,7 @@ func (b *VerifBalancer) SwapShard(shard *model.ShardLoadRatio, from model.Server
 	status *model.ClusterStatus) (bool, error) {
 	return b.r.swapShard(shard, from, group, ratios, candidates, metadata, status)
 }
+
+// SetScheduleInterval sets the balancer's schedule interval (NewVerifBalancer starts no ticker; the field only
+// matters to code that reads it during a round).
+func (b *VerifBalancer) SetScheduleInterval(d time.Duration) { b.r.scheduleInterval = d }
